@@ -145,6 +145,7 @@ type tcpPeer struct {
 	release chan struct{}
 	relOnce sync.Once
 	done    chan struct{} // script + receive loop finished
+	noRead  bool          // never read before release; keep the receive window tiny
 }
 
 func newTCPPeer(chunks []tnChunk, end string, endAt int) *tcpPeer {
@@ -189,10 +190,16 @@ func (p *tcpPeer) run(conn net.Conn) {
 	start := time.Now()
 	if tc, ok := conn.(*net.TCPConn); ok {
 		tc.SetNoDelay(true)
+		if p.noRead {
+			tc.SetReadBuffer(4096)
+		}
 	}
 	rdone := make(chan struct{})
 	go func() {
 		defer close(rdone)
+		if p.noRead {
+			<-p.release
+		}
 		buf := make([]byte, 32768)
 		for {
 			n, err := conn.Read(buf)
